@@ -459,6 +459,8 @@ def run(ck: Check):
             one(case)
         n_plain, n_uniq, n_surr = size(8000, 300000), size(1000, 30000), size(1000, 20000)
         for i in range(n_plain):
+            if ck.quick and ck.failures and i >= 8000:  # escalated run: the verdict is settled, stop at the quick size
+                break
             d = rng.choice(DIRS) if rng.randrange(3) else ""
             name = (d + "/" if d else "") + rand_basename(rng)
             rep = "_"
@@ -468,6 +470,8 @@ def run(ck: Check):
             one({"name": cps(name), "unique": False, "replace": cps(rep), "files": []})
         hangs = 0
         for i in range(n_uniq):
+            if ck.quick and ck.failures and i >= 1000:
+                break
             if hangs >= 3:                           # every further case would cost another 10 s
                 ck.notes.append("uniqueness stream stopped after 3 calls that did not return")
                 break
